@@ -86,6 +86,7 @@ class Interp:
         self.unmodelled = set()
         self.ref_syms = ["CS0", "MS0", "G0", "N0"]   # entry-state symbols: always coordinates of joins
         self._splice_cache = {}
+        self._unlink_cache = {}
         self.block_budget = 30000
         self.stats = {"blocks": 0, "calls_inlined": 0, "joins": 0, "entail": 0, "states": 0}
         self.variant_names = dict(ENUM_VARIANTS)
@@ -433,6 +434,19 @@ class Interp:
             self._splice_cache[body.path] = k
         return k
 
+    def unlink_role(self, body):
+        """the list primitive that unlinks a node *in place* (handle by value, two link stores through pointers)"""
+        k = self._unlink_cache.get(body.path)
+        if k is None:
+            eff = self.ctx.eff.direct.get(body.path, {})
+            n = sum(1 for (f, _b, _s, via) in eff.get("w_entry", []) if via and f in self.r.links)
+            from .cfg import cfg_of
+            ins = body.j.get("inputs") or []
+            k = (n == 2 and not body.is_closure and not cfg_of(body).loops() and not eff.get("table") and not eff.get("swap_table")
+                 and not eff.get("w_cache") and bool(ins) and self.r.is_eptr_ty(ins[0]))
+            self._unlink_cache[body.path] = k
+        return k
+
     def gset(self, st, name):
         return st.store.get(("G", name), frozenset())
 
@@ -443,6 +457,17 @@ class Interp:
         st.store[("G", name)] = self.gset(st, name) - frozenset([x])
 
     def pre_call(self, body, args, st, chain):
+        if self.unlink_role(body) and args and args[0][0] == "struct":
+            raw = args[0][2].get(self.r.EPTR_RAW)
+            if raw is not None and raw[0] == "ptr":
+                try:
+                    tgt = self.resolve_ptr(st, raw)[0]
+                    ev = st.store.get(tgt)
+                    if ev is not None and ev[0] == "struct" and ev[1] == self.r.entry and ev[2].get("#tid") in self.cache_tids(st) \
+                            and ev[2].get("#tid") is not None:
+                        self.gadd(st, "unhinged", tgt)     # still in the cache's table, no longer in its list
+                except Unsupported:
+                    pass
         if self.splice_role(body) and args and args[0][0] == "ptr":
             try:
                 ep = self.load(st, *self.resolve_ptr(st, args[0]))
@@ -453,6 +478,7 @@ class Interp:
                     self.gadd(st, "promoted", tgt)
                     self.gadd(st, "maypromoted", "yes")
                     self.gdel(st, "unlinked", tgt)
+                    self.gdel(st, "unhinged", tgt)
                     self.gdel(st, "pending", tgt)
                     self.events.append(("promote", {"target": tgt, "chain": chain, "state": None}))
                 else:
